@@ -1082,6 +1082,20 @@ func (kcp *KCP) SetMtu(mtu int) int {
 		return -1
 	}
 
+	// a smaller MTU cannot be honoured while larger segments are queued or in flight
+	fits := true
+	check := func(seg *segment) bool {
+		fits = len(seg.data) <= mtu-IKCP_OVERHEAD
+		return fits
+	}
+	kcp.snd_queue.ForEach(check)
+	if fits {
+		kcp.snd_buf.ForEach(check)
+	}
+	if !fits {
+		return -1
+	}
+
 	kcp.mtu = uint32(mtu)
 	kcp.mss = kcp.mtu - IKCP_OVERHEAD
 	kcp.buffer = make([]byte, (mtu+IKCP_OVERHEAD)*3)
